@@ -34,7 +34,7 @@ REQUIRED = {"match.instance_matches": {"quick": 3000, "thorough": 150000}, "args
             "cucumber.lookup": {"quick": 1000, "thorough": 50000}, "registry.find_step_definition_agrees_with_find_match": {"quick": 3000, "thorough": 150000},
             "registry.partial_converter_lookup": {"quick": 2000, "thorough": 100000}, "lookups_ending_in_converter_error": {"quick": 200, "thorough": 10000}, "modules.default_matcher_reset": {"quick": 100, "thorough": 800},
             "wrapper.span_invariant_on_every_match": {"quick": 5000, "thorough": 250000}}
-REQUIRED_SEEN = {"step_function_flavour": ["sync", "async_plain", "async_with_timeout"], "step_module_imports_another": ["yes"],
+REQUIRED_SEEN = {"step_function_flavour": ["sync", "async_plain", "async_with_timeout", "behind_shared_decorator"], "step_module_imports_another": ["yes"],
                  "cucumber_expression_parameters": ["none", "1", "2", "no_match"],
                  "project_default_given_by": ["use_default_step_matcher", "use_step_matcher_before_loading"], "matcher_kind": KINDS, "token_kind": ["lit", "named", "int", "word", "float", "custom", "many", "optional", "rnamed", "runnamed", "roptional"]}
 EXHAUSTIVE = {"quick": True, "thorough": True}
@@ -245,6 +245,14 @@ class Lab(object):
             return int(text)
         self.parse_number = parse_number
         self.calls = []
+        import functools
+
+        def logged(func):
+            @functools.wraps(func)
+            def wrapper(context, *args, **kwargs):
+                return func(context, *args, **kwargs)
+            return wrapper
+        self.logged = logged
         self.install_wrapper()
 
     def install_wrapper(self):
@@ -289,7 +297,7 @@ class Lab(object):
         self._used_reg = reg
         return reg
 
-    def make_fn(self, fid):
+    def make_fn(self, fid, decorated=False):
         """A recording step function with its OWN source location (file + line), as real step functions have:
         the registry identifies 'the very same function' by pattern + location."""
         self._nfn = getattr(self, "_nfn", 0) + 1
@@ -300,13 +308,20 @@ class Lab(object):
             # a coroutine step wrapped with behave's own decorator (both forms): it receives what a plain function receives
             deco = "@async_run_until_complete(timeout=30)" if flavour == "async_with_timeout" else "@async_run_until_complete"
             src = "\n" * self._nfn + "%s\nasync def fn_%d(context, *args, **kwargs):\n    calls.append((fid, args, kwargs))\n" % (deco, self._nfn)
+        if flavour == "sync" and (self._nfn % 7 == 2 or decorated):
+            flavour = "behind_shared_decorator"
         self.mon.seen("step_function_flavour", flavour)
         from behave.api.async_step import async_run_until_complete
         ns = {"calls": self.calls, "fid": fid, "async_run_until_complete": async_run_until_complete}
         # two source files only: many different functions share a file and differ in their line alone (copy/paste duplicates
         # inside one steps module), others live in different files
         exec(compile(src, "/verif/generated_steps/steps_%s.py" % "ab"[self._nfn % 3 == 0], "exec"), ns)
-        return ns["fn_%d" % self._nfn]
+        fn = ns["fn_%d" % self._nfn]
+        if flavour == "behind_shared_decorator":
+            # several step functions behind ONE user decorator written with functools.wraps (@logged): each is still its own
+            # function at its own place -- the decorator's inner wrapper is not "the" step function
+            fn = self.logged(fn)
+        return fn
 
     def register(self, reg, kind, step_type, ptext, fn):
         self.matchers.use_step_matcher(kind)
@@ -466,7 +481,10 @@ def run_history(lab, mon, history, label):
         ptext = pattern_text(toks, kind)
         fid = "%s#%d@%s" % (step_type, pi, slot)
         # one function object per slot (re-registering the very same function + pattern must be ignored)
-        fn = fns.setdefault(slot, lab.make_fn(slot))
+        if slot not in fns:
+            # (in every fourth history ALL step functions sit behind the same functools.wraps decorator)
+            fns[slot] = lab.make_fn(slot, decorated=(len(history) + sum(pi for _t, pi, _s in history)) % 4 == 0)
+        fn = fns[slot]
         want = model.add(step_type, kind, toks, slot, ptext, id(fn))
         desc.append((step_type, kind, ptext, slot, want))
         try:
